@@ -154,8 +154,17 @@ def perform(step, objs):
     # ---- in place
     if op == "move":
         v = pt(step["v"])
-        if step.get("form") == "tuple":
+        form = step.get("form")
+        if form == "tuple":
             return a.move(v)
+        if form == "list":
+            return a.move(list(v))
+        if form == "iter":
+            return a.move(iter(v))
+        if form == "gen":
+            return a.move(c for c in v)
+        if form == "point2d":
+            return a.move(Point2D(v[0], v[1]))
         return a.move(v[0], v[1])
     if op == "scale":
         return a.scale(num(step["sx"]), num(step["sy"]))
